@@ -180,7 +180,7 @@ func runOneCrash(c crCase) (sx.V, sx.V) {
 		add(timed(opDispense, func() error {
 			raw, err := rpcc.Dispense("vp")
 			if err == nil {
-				caller = raw.(vp.Caller)
+				caller = bounded(raw.(vp.Caller))
 			}
 			return err
 		}))
